@@ -99,6 +99,35 @@ def c19():
            "const C: Uint<70, 2> = uint!(1180591620717411303423_U70); const _: () = assert!(C.as_limbs()[1] == 63 && C.as_limbs()[0] == u64::MAX);\n"
            "const D: Uint<16, 1> = uint!(0o17_U16); const _: () = assert!(D.as_limbs()[0] == 15);\n"
            "const E: Uint<16, 1> = uint!(0b1011_U16); const _: () = assert!(E.as_limbs()[0] == 11);")
+    # multi-limb value grid: for every base the literal's limbs are asserted at compile time against the limbs
+    # computed here from the same digits (values chosen at limb boundaries and with all-ones / alternating digits)
+    def lit(v, base):
+        if base == 10:
+            return "%d" % v
+        return {2: "0b%s" % bin(v)[2:], 8: "0o%s" % oct(v)[2:], 16: "0x%s" % hex(v)[2:]}[base]
+    grid = []
+    for bits in (65, 66, 127, 128, 130, 192, 200, 256):
+        full = (1 << bits) - 1
+        vals = {1 << 64, (1 << 64) + 1, full, full - (1 << 64), (1 << (bits - 1)) | 1, int("5" * 60) & full,
+                int("7" * (bits // 3), 8), int("a5" * (bits // 8), 16) & full, (1 << 63) + (1 << 64) + (1 << (bits - 2))}
+        for v in sorted({x & full for x in vals} - {0}):
+            grid.append((bits, v))
+    n = 0
+    for base in (2, 8, 10, 16):
+        lines = []
+        for bits, v in grid:
+            limbs = (bits + 63) // 64
+            exp = ", ".join("0x%x" % ((v >> (64 * i)) & ((1 << 64) - 1)) for i in range(limbs))
+            n += 1
+            lines.append("const V%d: Uint<%d, %d> = uint!(%s_U%d); const _: () = { let e: [u64; %d] = [%s]; let g = V%d.as_limbs(); "
+                         "let mut i = 0; while i < %d { assert!(g[i] == e[i]); i += 1; } };" % (n, bits, limbs, lit(v, base), bits, limbs, exp, n, limbs))
+        okonly("value/grid-base%d" % base, "\n".join(lines))
+    # too-large on the multi-limb boundary for every base
+    for base in (2, 8, 16):
+        pair("too-large/base%d-U65" % base, "let x = uint!(%s_U65);" % lit(1 << 65, base), "too large",
+             "let x = uint!(%s_U65);" % lit((1 << 65) - 1, base))
+        pair("too-large/base%d-U130" % base, "let x = uint!(%s_U130);" % lit(1 << 130, base), "too large",
+             "let x = uint!(%s_U130);" % lit((1 << 130) - 1, base), quick=False)
     return out
 
 
